@@ -1,5 +1,5 @@
 use std::fs::File;
-use std::io;
+use std::io::{self, Read};
 use std::path::Path;
 use std::slice;
 
@@ -247,22 +247,17 @@ impl Nodegraph {
             let tablesize: usize = rdr.read_u64::<LittleEndian>()? as usize;
             let byte_size = tablesize / 8 + 1;
 
-            let rem = byte_size % 4;
-            let blocks: Vec<u32> = {
-                let mut blocks = vec![0; byte_size / 4];
-                rdr.read_u32_into::<LittleEndian>(&mut blocks)?;
-                if rem != 0 {
-                    let mut values = [0u8; 4];
-                    for item in values.iter_mut().take(rem) {
-                        let byte = rdr.read_u8().expect("error reading bins");
-                        *item = byte;
-                    }
-                    let mut block = vec![0u32; 1];
-                    LittleEndian::read_u32_into(&values, &mut block);
-                    blocks.push(block[0]);
-                }
-                blocks
-            };
+            // `tablesize` comes from the file: read the table through a bounded
+            // reader so that we never allocate more than the input provides
+            // (a damaged size field used to abort the process).
+            let mut buf: Vec<u8> = Vec::new();
+            rdr.by_ref().take(byte_size as u64).read_to_end(&mut buf)?;
+            if buf.len() != byte_size {
+                return Err(io::Error::new(io::ErrorKind::UnexpectedEof, "error reading bins").into());
+            }
+            buf.resize((byte_size + 3) / 4 * 4, 0);
+            let mut blocks: Vec<u32> = vec![0; buf.len() / 4];
+            LittleEndian::read_u32_into(&buf, &mut blocks);
 
             let counts = FixedBitSet::with_capacity_and_blocks(tablesize, blocks);
             bs.push(counts);
